@@ -1,6 +1,1197 @@
-//! C15 — stub: correspondence harness not built yet.
+//! C15 — term dictionaries behave as ordered maps from byte strings.
+//!
+//! Ties `Model/SSTable/*.lean` to `tantivy_sstable` (Writer, Dictionary, Streamer, merge),
+//! `tantivy::termdict` (fst backend, ordered-map contract only) and the columnar dictionary.
+//! Two judgements:
+//!  * oracle: the real result differs from a `BTreeMap` computed here / from the Lean spec,
+//!    or tantivy panics where the property does not allow it;
+//!  * model: the real result differs from the Lean block model (correspondence).
+#[path = "c15_other.rs"]
+mod other;
+
+use crate::model::{hex, unhex};
+use crate::rng::Rng;
 use crate::Ctx;
+use serde_json::{json, Value};
+use std::collections::{BTreeMap, HashMap, VecDeque};
+use std::hash::Hash;
+use std::ops::Bound;
+use std::panic::{catch_unwind, AssertUnwindSafe};
+use tantivy_common::OwnedBytes;
+use tantivy_fst::Automaton;
+use tantivy_sstable::{Dictionary, MonotonicU64SSTable, RangeSSTable, SSTable, TermOrdHit, VoidSSTable};
+
+pub const KEY_F6: &str = "C15:duplicate-empty-key-accepted";
+pub const KEY_INVERTED: &str = "C15:inverted-range-across-blocks-panics";
+pub const KEY_SEARCH_ORD: &str = "C15:search-stream-term-ord-after-pruned-block";
+
+// ------------------------------------------------------------------------------------------
+// small helpers
+// ------------------------------------------------------------------------------------------
+
+pub fn keys_field(keys: &[Vec<u8>]) -> String {
+    if keys.is_empty() {
+        return "_".into();
+    }
+    keys.iter().map(|k| hex(k)).collect::<Vec<_>>().join(",")
+}
+
+pub fn nats_field(v: &[u64]) -> String {
+    if v.is_empty() {
+        return "_".into();
+    }
+    v.iter().map(|x| x.to_string()).collect::<Vec<_>>().join(",")
+}
+
+pub fn parse_keys(s: &str) -> Vec<Vec<u8>> {
+    if s == "_" {
+        return vec![];
+    }
+    s.split(',').map(|t| unhex(t).unwrap_or_default()).collect()
+}
+
+fn fnv_byte(h: u64, b: u8) -> u64 {
+    (h ^ b as u64).wrapping_mul(0x100000001b3)
+}
+fn fnv_nat(mut h: u64, n: u64) -> u64 {
+    for i in 0..8 {
+        h = fnv_byte(h, (n >> (8 * i)) as u8);
+    }
+    h
+}
+/// `count/first ordinal/fnv1a64` of a stream of (ordinal, key, value id) — same as the driver
+pub fn digest(items: &[(u64, Vec<u8>, u64)]) -> String {
+    let mut h: u64 = 0xcbf29ce484222325;
+    for (o, k, v) in items {
+        h = fnv_nat(h, *o);
+        h = fnv_nat(h, k.len() as u64);
+        for b in k {
+            h = fnv_byte(h, *b);
+        }
+        h = fnv_nat(h, *v);
+    }
+    format!("{}/{}/{}", items.len(), items.first().map(|i| i.0.to_string()).unwrap_or("x".into()), h)
+}
+
+#[derive(Clone, Debug, PartialEq)]
+pub enum Bnd {
+    U,
+    I(Vec<u8>),
+    E(Vec<u8>),
+}
+impl Bnd {
+    pub fn show(&self) -> String {
+        match self {
+            Bnd::U => "u".into(),
+            Bnd::I(k) => format!("i{}", hex(k)),
+            Bnd::E(k) => format!("e{}", hex(k)),
+        }
+    }
+    pub fn parse(s: &str) -> Bnd {
+        match s.as_bytes().first() {
+            Some(b'i') => Bnd::I(unhex(&s[1..]).unwrap_or_default()),
+            Some(b'e') => Bnd::E(unhex(&s[1..]).unwrap_or_default()),
+            _ => Bnd::U,
+        }
+    }
+    pub fn lo_ok(&self, k: &[u8]) -> bool {
+        match self {
+            Bnd::U => true,
+            Bnd::I(b) => b.as_slice() <= k,
+            Bnd::E(b) => b.as_slice() < k,
+        }
+    }
+    pub fn hi_ok(&self, k: &[u8]) -> bool {
+        match self {
+            Bnd::U => true,
+            Bnd::I(b) => k <= b.as_slice(),
+            Bnd::E(b) => k < b.as_slice(),
+        }
+    }
+    pub fn std(&self) -> Bound<&[u8]> {
+        match self {
+            Bnd::U => Bound::Unbounded,
+            Bnd::I(b) => Bound::Included(b.as_slice()),
+            Bnd::E(b) => Bound::Excluded(b.as_slice()),
+        }
+    }
+}
+
+// ------------------------------------------------------------------------------------------
+// automata
+// ------------------------------------------------------------------------------------------
+
+#[derive(Clone)]
+pub struct PrefixAut(pub Vec<u8>);
+impl Automaton for PrefixAut {
+    type State = Option<usize>;
+    fn start(&self) -> Option<usize> {
+        Some(0)
+    }
+    fn is_match(&self, s: &Option<usize>) -> bool {
+        *s == Some(self.0.len())
+    }
+    fn can_match(&self, s: &Option<usize>) -> bool {
+        s.is_some()
+    }
+    fn accept(&self, s: &Option<usize>, b: u8) -> Option<usize> {
+        match s {
+            None => None,
+            Some(i) if *i == self.0.len() => Some(*i),
+            Some(i) => {
+                if self.0[*i] == b {
+                    Some(i + 1)
+                } else {
+                    None
+                }
+            }
+        }
+    }
+}
+
+pub struct LevAut(pub levenshtein_automata::DFA);
+impl Automaton for LevAut {
+    type State = u32;
+    fn start(&self) -> u32 {
+        self.0.initial_state()
+    }
+    fn is_match(&self, s: &u32) -> bool {
+        matches!(self.0.distance(*s), levenshtein_automata::Distance::Exact(_))
+    }
+    fn can_match(&self, s: &u32) -> bool {
+        *s != levenshtein_automata::SINK_STATE
+    }
+    fn accept(&self, s: &u32, b: u8) -> u32 {
+        self.0.transition(*s, b)
+    }
+}
+
+/// harness-level automaton description: `p<hex>` | `L<d><t|n><p|f>,<hex query>` | `R<hex pattern>`
+#[derive(Clone, Debug)]
+pub enum AutSpec {
+    Prefix(Vec<u8>),
+    Lev { d: u8, transpose: bool, prefix: bool, q: String },
+    Regex(String),
+}
+impl AutSpec {
+    pub fn show(&self) -> String {
+        match self {
+            AutSpec::Prefix(p) => format!("p{}", hex(p)),
+            AutSpec::Lev { d, transpose, prefix, q } => format!(
+                "L{}{}{},{}",
+                d,
+                if *transpose { 't' } else { 'n' },
+                if *prefix { 'p' } else { 'f' },
+                hex(q.as_bytes())
+            ),
+            AutSpec::Regex(r) => format!("R{}", hex(r.as_bytes())),
+        }
+    }
+    pub fn parse(s: &str) -> Option<AutSpec> {
+        let b = s.as_bytes();
+        match b.first()? {
+            b'p' => Some(AutSpec::Prefix(unhex(&s[1..])?)),
+            b'L' => {
+                let d = (b[1] - b'0') as u8;
+                let transpose = b[2] == b't';
+                let prefix = b[3] == b'p';
+                let q = String::from_utf8(unhex(&s[5..])?).ok()?;
+                Some(AutSpec::Lev { d, transpose, prefix, q })
+            }
+            b'R' => Some(AutSpec::Regex(String::from_utf8(unhex(&s[1..])?).ok()?)),
+            _ => None,
+        }
+    }
+}
+
+/// explicit DFA table of a real automaton for the Lean driver: `n:start:acc:can:runs`
+pub fn explore<A: Automaton>(a: &A, cap: usize) -> Option<String>
+where
+    A::State: Clone + Eq + Hash,
+{
+    let mut ids: HashMap<A::State, usize> = HashMap::new();
+    let mut states: Vec<A::State> = vec![];
+    let mut queue = VecDeque::new();
+    let s0 = a.start();
+    ids.insert(s0.clone(), 0);
+    states.push(s0);
+    queue.push_back(0usize);
+    let mut next: Vec<usize> = vec![];
+    while let Some(i) = queue.pop_front() {
+        debug_assert_eq!(next.len(), i * 256);
+        for b in 0..=255u8 {
+            let t = a.accept(&states[i], b);
+            let id = match ids.get(&t) {
+                Some(id) => *id,
+                None => {
+                    let id = states.len();
+                    if id >= cap {
+                        return None;
+                    }
+                    ids.insert(t.clone(), id);
+                    states.push(t);
+                    queue.push_back(id);
+                    id
+                }
+            };
+            next.push(id);
+        }
+    }
+    let n = states.len();
+    let acc: String = states.iter().map(|s| if a.is_match(s) { '1' } else { '0' }).collect();
+    let can: String = states.iter().map(|s| if a.can_match(s) { '1' } else { '0' }).collect();
+    let mut runs = String::new();
+    let mut i = 0;
+    while i < next.len() {
+        let mut j = i;
+        while j < next.len() && next[j] == next[i] {
+            j += 1;
+        }
+        if !runs.is_empty() {
+            runs.push(',');
+        }
+        if j - i == 1 {
+            runs.push_str(&next[i].to_string());
+        } else {
+            runs.push_str(&format!("{}*{}", next[i], j - i));
+        }
+        i = j;
+    }
+    Some(format!("{n}:0:{acc}:{can}:{runs}"))
+}
+
+pub fn accepts<A: Automaton>(a: &A, k: &[u8]) -> bool {
+    let mut s = a.start();
+    for b in k {
+        s = a.accept(&s, *b);
+    }
+    a.is_match(&s)
+}
+
+/// run `$body` with the real automaton of a spec bound to `$a`
+#[macro_export]
+macro_rules! c15_with_aut {
+    ($spec:expr, $a:ident, $body:expr, $bad:expr) => {
+        match $spec {
+            $crate::props::c15::AutSpec::Prefix(p) => {
+                let $a = $crate::props::c15::PrefixAut(p.clone());
+                $body
+            }
+            $crate::props::c15::AutSpec::Lev { d, transpose, prefix, q } => {
+                let b = levenshtein_automata::LevenshteinAutomatonBuilder::new(*d, *transpose);
+                let $a = $crate::props::c15::LevAut(if *prefix { b.build_prefix_dfa(q) } else { b.build_dfa(q) });
+                $body
+            }
+            $crate::props::c15::AutSpec::Regex(r) => match tantivy_fst::Regex::new(r) {
+                Ok($a) => $body,
+                Err(_) => $bad,
+            },
+        }
+    };
+}
+
+/// edit distance over chars, optionally with adjacent transpositions at cost one
+/// (restricted Damerau–Levenshtein, what levenshtein_automata implements)
+pub fn edit_distance(a: &str, b: &str, transpose: bool) -> usize {
+    let a: Vec<char> = a.chars().collect();
+    let b: Vec<char> = b.chars().collect();
+    let mut d = vec![vec![0usize; b.len() + 1]; a.len() + 1];
+    for i in 0..=a.len() {
+        d[i][0] = i;
+    }
+    for j in 0..=b.len() {
+        d[0][j] = j;
+    }
+    for i in 1..=a.len() {
+        for j in 1..=b.len() {
+            let c = if a[i - 1] == b[j - 1] { 0 } else { 1 };
+            d[i][j] = (d[i - 1][j] + 1).min(d[i][j - 1] + 1).min(d[i - 1][j - 1] + c);
+            if transpose && i > 1 && j > 1 && a[i - 1] == b[j - 2] && a[i - 2] == b[j - 1] {
+                d[i][j] = d[i][j].min(d[i - 2][j - 2] + 1);
+            }
+        }
+    }
+    d[a.len()][b.len()]
+}
+
+// ------------------------------------------------------------------------------------------
+// key-set generators
+// ------------------------------------------------------------------------------------------
+
+pub fn gen_keys(rng: &mut Rng, thorough: bool) -> (String, Vec<Vec<u8>>) {
+    let profile = rng.below(12);
+    let mut set: std::collections::BTreeSet<Vec<u8>> = Default::default();
+    let name;
+    match profile {
+        0 => {
+            name = "empty";
+        }
+        1 => {
+            name = "single";
+            let n = rng.usize_below(6);
+            set.insert(rng.bytes(n));
+        }
+        2 => {
+            name = "empty-key+few";
+            set.insert(vec![]);
+            for _ in 0..rng.usize_below(6) {
+                let n = 1 + rng.usize_below(3);
+                set.insert(rng.bytes(n));
+            }
+        }
+        3 => {
+            name = "long-shared-prefix";
+            let plen = *rng.pick(&[14usize, 15, 16, 17, 31, 127, 128, 129, 300]);
+            let p = rng.bytes(plen);
+            let n = 2 + rng.usize_below(60);
+            for _ in 0..n {
+                let mut k = p.clone();
+                let extra = *rng.pick(&[0usize, 1, 2, 14, 15, 16, 17, 40]);
+                k.extend(rng.bytes(extra));
+                set.insert(k);
+            }
+        }
+        4 => {
+            name = "00-ff-bytes";
+            let n = 2 + rng.usize_below(80);
+            for _ in 0..n {
+                let len = rng.usize_below(6);
+                let k: Vec<u8> = (0..len).map(|_| *rng.pick(&[0u8, 0, 255, 255, 1, 254, 0x61])).collect();
+                set.insert(k);
+            }
+        }
+        5 => {
+            name = "kilobyte-keys";
+            let n = 1 + rng.usize_below(6);
+            let base = rng.bytes(if thorough { 20_000 } else { 3000 });
+            for _ in 0..n {
+                let cut = rng.usize_below(base.len());
+                let mut k = base[..cut].to_vec();
+                let m = rng.usize_below(40);
+                k.extend(rng.bytes(m));
+                set.insert(k);
+            }
+            set.insert(vec![7]);
+        }
+        6 | 7 => {
+            name = "ascii-words";
+            let n = *rng.pick(&[3usize, 20, 100, 400]);
+            let alpha = b"abcde";
+            for _ in 0..n {
+                let len = 1 + rng.usize_below(7);
+                set.insert((0..len).map(|_| *rng.pick(alpha)).collect());
+            }
+        }
+        8 => {
+            name = "thousands";
+            let n = if thorough { 20_000 } else { *rng.pick(&[1500usize, 3000, 5000]) };
+            for i in 0..n {
+                let mut k = format!("term{:06}", i * 7 + rng.usize_below(7)).into_bytes();
+                if rng.chance(1, 10) {
+                    let m = 1 + rng.usize_below(30);
+                    k.extend(rng.bytes(m));
+                }
+                set.insert(k);
+            }
+        }
+        9 => {
+            name = "utf8-words";
+            let syll = ["a", "é", "日", "本", "ß", "o", "𝄞", "k", "z"];
+            let n = 5 + rng.usize_below(150);
+            for _ in 0..n {
+                let len = 1 + rng.usize_below(5);
+                let s: String = (0..len).map(|_| *rng.pick(&syll)).collect();
+                set.insert(s.into_bytes());
+            }
+        }
+        10 => {
+            name = "nibble-boundary";
+            // keep / add lengths around FOUR_BIT_LIMITS
+            let p = rng.bytes(20);
+            for keep in [0usize, 1, 14, 15, 16, 17] {
+                for add in [1usize, 2, 14, 15, 16, 17, 130] {
+                    let mut k = p[..keep].to_vec();
+                    k.extend(rng.bytes(add));
+                    set.insert(k);
+                }
+            }
+            if rng.chance(1, 2) {
+                set.insert(vec![]);
+            }
+        }
+        _ => {
+            name = "random-binary";
+            let n = 1 + rng.usize_below(300);
+            for _ in 0..n {
+                let len = rng.usize_below(10);
+                set.insert(rng.bytes(len));
+            }
+        }
+    }
+    (name.to_string(), set.into_iter().collect())
+}
+
+pub fn gen_block_len(rng: &mut Rng) -> Option<usize> {
+    match rng.below(10) {
+        0 => Some(0),
+        1 => Some(1),
+        2 => Some(2 + rng.usize_below(14)),
+        3 | 4 => Some(16 + rng.usize_below(100)),
+        5 => Some(200 + rng.usize_below(1800)),
+        6 => Some(4000),
+        _ => None,
+    }
+}
+
+/// probe keys: members, neighbours, separators of the model layout, random
+pub fn probes(rng: &mut Rng, keys: &[Vec<u8>], seps: &[Vec<u8>]) -> Vec<Vec<u8>> {
+    let mut out: Vec<Vec<u8>> = vec![vec![], vec![0], vec![255], vec![255, 255, 255]];
+    let mut near = |k: &Vec<u8>, out: &mut Vec<Vec<u8>>| {
+        out.push(k.clone());
+        let mut a = k.clone();
+        a.push(0);
+        out.push(a);
+        if !k.is_empty() {
+            out.push(k[..k.len() - 1].to_vec());
+            let mut b = k.clone();
+            let l = b.len() - 1;
+            b[l] = b[l].wrapping_add(1);
+            out.push(b);
+            let mut c = k.clone();
+            c[l] = c[l].wrapping_sub(1);
+            out.push(c);
+        }
+    };
+    if !keys.is_empty() {
+        near(&keys[0], &mut out);
+        near(&keys[keys.len() - 1], &mut out);
+        for _ in 0..6 {
+            let k = keys[rng.usize_below(keys.len())].clone();
+            near(&k, &mut out);
+        }
+    }
+    for _ in 0..6.min(seps.len()) {
+        let s = seps[rng.usize_below(seps.len())].clone();
+        near(&s, &mut out);
+    }
+    for _ in 0..3 {
+        let n = rng.usize_below(5);
+        out.push(rng.bytes(n));
+    }
+    out
+}
+
+pub fn gen_bound(rng: &mut Rng, pr: &[Vec<u8>]) -> Bnd {
+    match rng.below(5) {
+        0 => Bnd::U,
+        1 | 2 => Bnd::I(pr[rng.usize_below(pr.len())].clone()),
+        _ => Bnd::E(pr[rng.usize_below(pr.len())].clone()),
+    }
+}
+
+pub fn gen_aut(rng: &mut Rng, keys: &[Vec<u8>]) -> AutSpec {
+    let sample_str = |rng: &mut Rng| -> String {
+        for _ in 0..8 {
+            if keys.is_empty() {
+                break;
+            }
+            if let Ok(s) = String::from_utf8(keys[rng.usize_below(keys.len())].clone()) {
+                if s.chars().count() <= 12 {
+                    return s;
+                }
+            }
+        }
+        "abc".to_string()
+    };
+    match rng.below(4) {
+        0 => {
+            let p = if keys.is_empty() || rng.chance(1, 4) {
+                let m = rng.usize_below(3);
+                rng.bytes(m)
+            } else {
+                let k = &keys[rng.usize_below(keys.len())];
+                k[..rng.usize_below(k.len() + 1).min(40)].to_vec()
+            };
+            AutSpec::Prefix(p)
+        }
+        1 | 2 => {
+            let mut q = sample_str(rng);
+            if rng.chance(1, 2) && !q.is_empty() {
+                // perturb: drop / swap / replace a char
+                let mut cs: Vec<char> = q.chars().collect();
+                let i = rng.usize_below(cs.len());
+                match rng.below(3) {
+                    0 => {
+                        cs.remove(i);
+                    }
+                    1 if i + 1 < cs.len() => cs.swap(i, i + 1),
+                    _ => cs[i] = 'x',
+                }
+                q = cs.into_iter().collect();
+            }
+            AutSpec::Lev { d: rng.below(3) as u8, transpose: rng.chance(1, 2), prefix: rng.chance(1, 4), q }
+        }
+        _ => {
+            let s = sample_str(rng);
+            let esc: String = s.chars().filter(|c| c.is_alphanumeric()).collect();
+            let pat = match rng.below(5) {
+                0 => format!("{}.*", esc.chars().take(2).collect::<String>()),
+                1 => format!(".*{}", esc.chars().rev().take(2).collect::<String>()),
+                2 => "[a-c]+".to_string(),
+                3 => format!("({}|b.*|term00[0-3].*)", esc),
+                _ => "(a|b)*c?d".to_string(),
+            };
+            AutSpec::Regex(pat)
+        }
+    }
+}
+
+// ------------------------------------------------------------------------------------------
+// the real sstable side
+// ------------------------------------------------------------------------------------------
+
+pub type V2 = (u64, u64);
+
+pub struct Codec<T: SSTable> {
+    pub name: &'static str,
+    pub mk: fn(V2) -> T::Value,
+    pub id: fn(&T::Value) -> V2,
+}
+
+pub fn void_codec() -> Codec<VoidSSTable> {
+    Codec { name: "void", mk: |_| (), id: |_| (0, 0) }
+}
+pub fn u64_codec() -> Codec<MonotonicU64SSTable> {
+    Codec { name: "u64", mk: |v| v.0, id: |v| (*v, 0) }
+}
+pub fn range_codec() -> Codec<RangeSSTable> {
+    Codec { name: "range", mk: |v| v.0..v.1, id: |v| (v.start, v.end) }
+}
+
+pub fn gen_vals(rng: &mut Rng, kind: &str, n: usize) -> Vec<V2> {
+    let mut out = Vec::with_capacity(n);
+    let mut cur = if rng.chance(1, 2) { 0 } else { rng.below(1 << 40) };
+    for _ in 0..n {
+        match kind {
+            "void" => out.push((0, 0)),
+            "u64" => {
+                cur += *rng.pick(&[0u64, 1, 1, 5, 127, 128, 1 << 20]);
+                out.push((cur, 0));
+            }
+            _ => {
+                let len = *rng.pick(&[0u64, 1, 3, 127, 128, 70_000]);
+                out.push((cur, cur + len));
+                cur += len;
+            }
+        }
+    }
+    out
+}
+
+/// build with the real writer; Err(index) = panic / io error while inserting key `index`
+pub fn real_build<T: SSTable>(codec: &Codec<T>, block_len: Option<usize>, keys: &[Vec<u8>], vals: &[V2]) -> Result<Vec<u8>, usize> {
+    let mut w = Dictionary::<T>::builder(Vec::new()).unwrap();
+    if let Some(bl) = block_len {
+        w.set_block_len(bl);
+    }
+    for (i, k) in keys.iter().enumerate() {
+        let v = (codec.mk)(vals[i]);
+        let r = catch_unwind(AssertUnwindSafe(|| w.insert(k, &v)));
+        match r {
+            Ok(Ok(())) => {}
+            _ => return Err(i),
+        }
+    }
+    match catch_unwind(AssertUnwindSafe(|| w.finish())) {
+        Ok(Ok(b)) => Ok(b),
+        _ => Err(keys.len()),
+    }
+}
+
+pub fn show_opt_v(v: Option<u64>) -> String {
+    match v {
+        Some(v) => format!("some{v}"),
+        None => "none".into(),
+    }
+}
+
+pub fn real_stream<T: SSTable, A: Automaton>(
+    dict: &Dictionary<T>,
+    codec: &Codec<T>,
+    aut: Option<A>,
+    lo: &Bnd,
+    hi: &Bnd,
+    limit: Option<u64>,
+) -> Result<Vec<(u64, Vec<u8>, V2)>, String>
+where
+    A::State: Clone,
+{
+    let r = catch_unwind(AssertUnwindSafe(|| -> std::io::Result<Vec<(u64, Vec<u8>, V2)>> {
+        let mut out = vec![];
+        macro_rules! drive {
+            ($b:expr) => {{
+                let mut b = $b;
+                b = match lo {
+                    Bnd::U => b,
+                    Bnd::I(k) => b.ge(k),
+                    Bnd::E(k) => b.gt(k),
+                };
+                b = match hi {
+                    Bnd::U => b,
+                    Bnd::I(k) => b.le(k),
+                    Bnd::E(k) => b.lt(k),
+                };
+                if let Some(l) = limit {
+                    b = b.limit(l);
+                }
+                let mut s = b.into_stream()?;
+                while s.advance() {
+                    out.push((s.term_ord(), s.key().to_vec(), (codec.id)(s.value())));
+                }
+            }};
+        }
+        match aut {
+            Some(a) => drive!(dict.search(a)),
+            None => drive!(dict.range()),
+        }
+        Ok(out)
+    }));
+    match r {
+        Ok(Ok(v)) => Ok(v),
+        Ok(Err(e)) => Err(format!("io:{e}")),
+        Err(_) => Err("panic".into()),
+    }
+}
+
+pub struct DictCase {
+    pub vk: String,
+    pub block_len: Option<usize>,
+    pub keys: Vec<Vec<u8>>,
+    pub vals: Vec<V2>,
+    pub ops: Vec<String>,
+    pub profile: String,
+}
+
+impl DictCase {
+    pub fn json(&self, failing_op: &str) -> Value {
+        json!({
+            "kind": "sstable", "vk": self.vk, "block_len": self.block_len,
+            "keys": keys_field(&self.keys),
+            "vals": self.vals.iter().map(|v| format!("{}-{}", v.0, v.1)).collect::<Vec<_>>().join(","),
+            "ops": if failing_op.is_empty() { self.ops.clone() } else { vec![failing_op.to_string()] },
+            "profile": self.profile,
+        })
+    }
+    pub fn from_json(v: &Value) -> Option<DictCase> {
+        let vals: Vec<V2> = v["vals"].as_str()?.split(',').filter(|s| !s.is_empty()).filter_map(|s| {
+            let (a, b) = s.split_once('-')?;
+            Some((a.parse().ok()?, b.parse().ok()?))
+        }).collect();
+        Some(DictCase {
+            vk: v["vk"].as_str()?.to_string(),
+            block_len: v["block_len"].as_u64().map(|x| x as usize),
+            keys: parse_keys(v["keys"].as_str()?),
+            vals,
+            ops: v["ops"].as_array()?.iter().filter_map(|s| s.as_str().map(|s| s.to_string())).collect(),
+            profile: v["profile"].as_str().unwrap_or("").to_string(),
+        })
+    }
+}
+
+pub fn gen_ops(rng: &mut Rng, keys: &[Vec<u8>], seps: &[Vec<u8>], n_ops: usize) -> Vec<String> {
+    let pr = probes(rng, keys, seps);
+    let n = keys.len() as u64;
+    let mut ops = vec![];
+    let pick = |rng: &mut Rng| pr[rng.usize_below(pr.len())].clone();
+    // fixed core
+    ops.push("rng:u:u:n".to_string());
+    for _ in 0..n_ops {
+        let op = match rng.below(16) {
+            0 | 1 => format!("get:{}", hex(&pick(rng))),
+            2 => format!("ord:{}", hex(&pick(rng))),
+            3 | 4 => format!("orn:{}", hex(&pick(rng))),
+            5 => {
+                let r = rng.below(n + 2);
+                format!("o2t:{}", *rng.pick(&[0u64, 1, n.saturating_sub(1), n, n + 1, r]))
+            }
+            6 => {
+                let r = rng.below(n + 2);
+                format!("val:{}", *rng.pick(&[0u64, n.saturating_sub(1), n, r]))
+            }
+            7 => format!("blk:{}", hex(&pick(rng))),
+            8 | 9 | 10 => {
+                let lim = match rng.below(3) {
+                    0 => "n".to_string(),
+                    _ => rng.pick(&[0u64, 1, 2, 5, 50, n.saturating_sub(1), n, n + 1]).to_string(),
+                };
+                format!("rng:{}:{}:{}", gen_bound(rng, &pr).show(), gen_bound(rng, &pr).show(), lim)
+            }
+            11 => {
+                let k = pick(rng);
+                let p = k[..rng.usize_below(k.len() + 1)].to_vec();
+                format!("pfx:{}:{}", hex(&p), if rng.chance(1, 3) { "3" } else { "n" })
+            }
+            12 => format!("sorted:{}", {
+                let mut ords: Vec<u64> = (0..rng.usize_below(8)).map(|_| rng.below(n + 1)).collect();
+                ords.sort();
+                nats_field(&ords)
+            }),
+            _ => {
+                let (lo, hi) = if rng.chance(1, 2) { (Bnd::U, Bnd::U) } else { (gen_bound(rng, &pr), gen_bound(rng, &pr)) };
+                format!("aut:{}:{}:{}", gen_aut(rng, keys).show(), lo.show(), hi.show())
+            }
+        };
+        ops.push(op);
+    }
+    ops
+}
+
+fn show_hit(h: &TermOrdHit) -> String {
+    match h {
+        TermOrdHit::Exact(o) => format!("e{o}"),
+        TermOrdHit::Next(o) => {
+            if *o == u64::MAX {
+                "nmax".into()
+            } else {
+                format!("n{o}")
+            }
+        }
+    }
+}
+
+/// everything about one dictionary: build, ask the model once, run every op on the real code
+pub fn check_dict<T: SSTable>(ctx: &mut Ctx, codec: &Codec<T>, case: &DictCase) {
+    let keys = &case.keys;
+    let vals = &case.vals;
+    let oracle: BTreeMap<Vec<u8>, V2> = keys.iter().cloned().zip(vals.iter().cloned()).collect();
+    let sorted: Vec<(&Vec<u8>, &V2)> = oracle.iter().collect();
+    let bytes = match real_build(codec, case.block_len, keys, vals) {
+        Ok(b) => b,
+        Err(i) => {
+            ctx.report.violation("oracle", "C15:sorted-keys-rejected", format!("writer rejected strictly increasing keys at index {i} ({} keys, block_len {:?})", keys.len(), case.block_len), case.json(""));
+            return;
+        }
+    };
+    let dict = match catch_unwind(AssertUnwindSafe(|| Dictionary::<T>::from_bytes(OwnedBytes::new(bytes.clone())))) {
+        Ok(Ok(d)) => d,
+        _ => {
+            ctx.report.violation("oracle", "C15:open-failed", "Dictionary::open failed on a file the writer produced".into(), case.json(""));
+            return;
+        }
+    };
+    check_ops(ctx, codec, case, &dict);
+}
+
+/// run every op of `case` on an opened dictionary and on the model
+pub fn check_ops<T: SSTable>(ctx: &mut Ctx, codec: &Codec<T>, case: &DictCase, dict: &Dictionary<T>) {
+    let keys = &case.keys;
+    let vals = &case.vals;
+    let oracle: BTreeMap<Vec<u8>, V2> = keys.iter().cloned().zip(vals.iter().cloned()).collect();
+    let sorted: Vec<(&Vec<u8>, &V2)> = oracle.iter().collect();
+    if dict.num_terms() != keys.len() {
+        ctx.report.violation("oracle", "C15:num-terms", format!("num_terms {} != {}", dict.num_terms(), keys.len()), case.json(""));
+    }
+    // translate ops for the model (automata become explicit tables)
+    let mut tables: Vec<String> = vec![];
+    let mut lean_ops: Vec<String> = vec![];
+    for op in &case.ops {
+        let parts: Vec<&str> = op.split(':').collect();
+        if parts[0] == "aut" {
+            let spec = AutSpec::parse(parts[1]);
+            let lean_aut = match &spec {
+                Some(AutSpec::Prefix(p)) => Some(format!("p{}", hex(p))),
+                Some(s) => {
+                    let t: Option<String> = c15_with_aut!(s, a, explore(&a, 400), None);
+                    t.map(|t| {
+                        tables.push(t);
+                        format!("t{}", tables.len() - 1)
+                    })
+                }
+                None => None,
+            };
+            match lean_aut {
+                Some(a) => lean_ops.push(format!("aut:{}:{}:{}", a, parts[2], parts[3])),
+                None => {
+                    ctx.report.count("aut:not-sent-to-model");
+                    lean_ops.push("skip".into());
+                }
+            }
+        } else if parts[0] == "sorted" {
+            lean_ops.push("skip".into());
+        } else {
+            lean_ops.push(op.clone());
+        }
+    }
+    let bl = case.block_len.unwrap_or(4000);
+    let line = format!(
+        "C15 run {} {} {} {} {}",
+        bl,
+        keys_field(keys),
+        nats_field(&vals.iter().map(|v| v.0).collect::<Vec<_>>()),
+        if tables.is_empty() { "_".to_string() } else { tables.join("|") },
+        lean_ops.join(";")
+    );
+    let resp = ctx.model.ask(&line);
+    let answers: Vec<&str> = resp.split(';').collect();
+    if answers.len() != case.ops.len() {
+        ctx.report.violation("model", "C15:driver-protocol", format!("model answered {} results for {} ops: {}", answers.len(), case.ops.len(), &resp[..resp.len().min(100)]), case.json(""));
+        return;
+    }
+    let nontrivial_dict = keys.len() >= 2;
+    for (op, ans) in case.ops.iter().zip(answers.iter()) {
+        let parts: Vec<&str> = op.split(':').collect();
+        let halves: Vec<&str> = ans.split('~').collect();
+        let spec = halves.first().copied().unwrap_or("");
+        let model = halves.get(1).copied().unwrap_or("");
+        ctx.report.count(&format!("op:{}", parts[0]));
+        ctx.report.case(&format!("{}|{:?}|{}|{}", case.vk, case.block_len, fnv_keys(keys), op), nontrivial_dict);
+        let mut bad = |ctx: &mut Ctx, kind: &str, key: &str, what: String| {
+            ctx.report.violation(kind, key, format!("{what} [op {op}, {} keys, block_len {:?}, values {}]", keys.len(), case.block_len, case.vk), case.json(op));
+        };
+        match parts[0] {
+            "get" => {
+                let k = unhex(parts[1]).unwrap();
+                let real = match catch_unwind(AssertUnwindSafe(|| dict.get(&k))) {
+                    Ok(Ok(v)) => v.map(|v| (codec.id)(&v)),
+                    _ => {
+                        bad(ctx, "oracle", "C15:get-panics", "get panicked or failed".into());
+                        continue;
+                    }
+                };
+                if real != oracle.get(&k).cloned() {
+                    bad(ctx, "oracle", "C15:get-wrong", format!("get = {:?}, sorted map says {:?}", real, oracle.get(&k)));
+                } else if show_opt_v(real.map(|v| v.0)) != spec {
+                    bad(ctx, "oracle", "C15:get-wrong", format!("get = {:?}, Lean spec says {spec}", real));
+                } else if spec != model {
+                    bad(ctx, "model", "C15:get-model", format!("real {:?} model {model}", real));
+                }
+            }
+            "ord" => {
+                let k = unhex(parts[1]).unwrap();
+                let real = match catch_unwind(AssertUnwindSafe(|| dict.term_ord(&k))) {
+                    Ok(Ok(v)) => v,
+                    _ => {
+                        bad(ctx, "oracle", "C15:term-ord-panics", "term_ord panicked or failed".into());
+                        continue;
+                    }
+                };
+                let want = sorted.iter().position(|e| *e.0 == k).map(|i| i as u64);
+                let shown = real.map(|v| v.to_string()).unwrap_or("none".into());
+                if real != want || shown != spec {
+                    bad(ctx, "oracle", "C15:term-ord-wrong", format!("term_ord = {:?}, sorted map says {:?}, Lean spec {spec}", real, want));
+                } else if shown != model {
+                    bad(ctx, "model", "C15:term-ord-model", format!("real {shown} model {model}"));
+                }
+            }
+            "orn" => {
+                let k = unhex(parts[1]).unwrap();
+                let real = match catch_unwind(AssertUnwindSafe(|| dict.term_ord_or_next(&k))) {
+                    Ok(Ok(v)) => v,
+                    _ => {
+                        bad(ctx, "oracle", "C15:term-ord-or-next-panics", "term_ord_or_next panicked or failed".into());
+                        continue;
+                    }
+                };
+                let rank = sorted.iter().filter(|e| e.0.as_slice() < k.as_slice()).count() as u64;
+                let exact = oracle.contains_key(&k);
+                let ok = match &real {
+                    TermOrdHit::Exact(o) => exact && *o == rank,
+                    // no successor: the code documents "may not exist" (n or u64::MAX)
+                    TermOrdHit::Next(o) => !exact && (*o == rank || (rank == keys.len() as u64 && *o >= rank)),
+                };
+                let shown = show_hit(&real);
+                let spec_ok = shown == spec || (spec == format!("n{}", keys.len()) && shown == "nmax");
+                if !ok || !spec_ok {
+                    bad(ctx, "oracle", "C15:term-ord-or-next-wrong", format!("term_ord_or_next = {shown}, sorted map rank {rank} exact {exact}, Lean spec {spec}"));
+                } else if shown != model || halves.get(2).copied() != Some(model) {
+                    bad(ctx, "model", "C15:term-ord-or-next-model", format!("real {shown} model {model} delta-scan model {:?}", halves.get(2)));
+                }
+                if shown == "nmax" {
+                    ctx.report.count("branch:term_ord_or_next-past-end-u64max");
+                }
+            }
+            "o2t" | "val" => {
+                let o: u64 = parts[1].parse().unwrap();
+                let want = sorted.get(o as usize);
+                if parts[0] == "o2t" {
+                    let mut buf = vec![];
+                    let real = match catch_unwind(AssertUnwindSafe(|| dict.ord_to_term(o, &mut buf))) {
+                        Ok(Ok(f)) => if f { Some(buf.clone()) } else { None },
+                        _ => {
+                            bad(ctx, "oracle", "C15:ord-to-term-panics", "ord_to_term panicked or failed".into());
+                            continue;
+                        }
+                    };
+                    let shown = real.as_ref().map(|k| format!("k{}", hex(k))).unwrap_or("none".into());
+                    if real.as_ref() != want.map(|e| e.0) || shown != spec {
+                        bad(ctx, "oracle", "C15:ord-to-term-wrong", format!("ord_to_term({o}) = {shown}, Lean spec {spec}"));
+                    } else if shown != model {
+                        bad(ctx, "model", "C15:ord-to-term-model", format!("real {shown} model {model}"));
+                    }
+                } else {
+                    let real = match catch_unwind(AssertUnwindSafe(|| dict.term_info_from_ord(o))) {
+                        Ok(Ok(v)) => v.map(|v| (codec.id)(&v)),
+                        _ => {
+                            bad(ctx, "oracle", "C15:value-from-ord-panics", "term_info_from_ord panicked or failed".into());
+                            continue;
+                        }
+                    };
+                    let shown = show_opt_v(real.map(|v| v.0));
+                    if real.as_ref() != want.map(|e| e.1) || shown != spec {
+                        bad(ctx, "oracle", "C15:value-from-ord-wrong", format!("term_info_from_ord({o}) = {:?}, Lean spec {spec}", real));
+                    } else if shown != model {
+                        bad(ctx, "model", "C15:value-from-ord-model", format!("real {shown} model {model}"));
+                    }
+                }
+            }
+            "blk" => {
+                let k = unhex(parts[1]).unwrap();
+                let real = dict.sstable_index.get_block_with_key(&k).map(|b| b.first_ordinal.to_string()).unwrap_or("none".into());
+                if real != *ans {
+                    bad(ctx, "model", "C15:block-routing-model", format!("get_block_with_key first ordinal {real}, model {ans}"));
+                }
+            }
+            "sorted" => {
+                let ords: Vec<u64> = crate::model::parse_nat_list(&parts[1].replace('_', "-")).unwrap_or_default();
+                let mut got: Vec<Vec<u8>> = vec![];
+                let real = catch_unwind(AssertUnwindSafe(|| dict.sorted_ords_to_term_cb(&ords, |k| got.push(k.to_vec()))));
+                let all_in = ords.iter().all(|o| (*o as usize) < keys.len());
+                let want: Vec<Vec<u8>> = ords.iter().filter_map(|o| sorted.get(*o as usize).map(|e| e.0.clone())).collect();
+                match real {
+                    Ok(Ok(f)) => {
+                        if f != all_in || (f && got != want) || (!f && !want.starts_with(&got)) {
+                            bad(ctx, "oracle", "C15:sorted-ords-wrong", format!("sorted_ords_to_term_cb({ords:?}) returned {f} with {} keys", got.len()));
+                        }
+                    }
+                    _ => bad(ctx, "oracle", "C15:sorted-ords-panics", "sorted_ords_to_term_cb panicked or failed".into()),
+                }
+            }
+            "rng" | "pfx" => {
+                let (lo, hi, lim, real) = if parts[0] == "rng" {
+                    let lo = Bnd::parse(parts[1]);
+                    let hi = Bnd::parse(parts[2]);
+                    let lim = parts[3].parse::<u64>().ok();
+                    let real = real_stream::<T, PrefixAut>(dict, codec, None, &lo, &hi, lim);
+                    (lo, hi, lim, real)
+                } else {
+                    let p = unhex(parts[1]).unwrap();
+                    let lim = parts[2].parse::<u64>().ok();
+                    let real = catch_unwind(AssertUnwindSafe(|| -> std::io::Result<Vec<(u64, Vec<u8>, V2)>> {
+                        let mut b = dict.prefix_range(&p);
+                        if let Some(l) = lim {
+                            b = b.limit(l);
+                        }
+                        let mut s = b.into_stream()?;
+                        let mut out = vec![];
+                        while s.advance() {
+                            out.push((s.term_ord(), s.key().to_vec(), (codec.id)(s.value())));
+                        }
+                        Ok(out)
+                    }));
+                    let real = match real {
+                        Ok(Ok(v)) => Ok(v),
+                        Ok(Err(e)) => Err(format!("io:{e}")),
+                        Err(_) => Err("panic".to_string()),
+                    };
+                    // oracle for a prefix: starts_with
+                    (Bnd::I(p.clone()), Bnd::U, lim, real)
+                };
+                let want: Vec<(u64, Vec<u8>, V2)> = sorted.iter().enumerate().filter(|(_, e)| {
+                    if parts[0] == "pfx" { e.0.starts_with(match &lo { Bnd::I(p) => p, _ => unreachable!() }) } else { lo.lo_ok(e.0) && hi.hi_ok(e.0) }
+                }).map(|(i, e)| (i as u64, e.0.clone(), *e.1)).collect();
+                let want_d = digest(&want.iter().map(|e| (e.0, e.1.clone(), e.2 .0)).collect::<Vec<_>>());
+                if want_d != spec {
+                    bad(ctx, "model", "C15:spec-vs-btreemap", format!("Lean spec digest {spec} != BTreeMap digest {want_d}"));
+                    continue;
+                }
+                match real {
+                    Err(e) => {
+                        // F-inverted: lower bound routed to a block ≥ 2 after the upper bound's block
+                        let inverted = match (&lo, &hi) {
+                            (Bnd::I(a) | Bnd::E(a), Bnd::I(b) | Bnd::E(b)) => a > b,
+                            _ => false,
+                        };
+                        if e == "panic" && inverted && model == "panic" && parts[0] == "rng" {
+                            bad(ctx, "oracle", KEY_INVERTED, "range with lower bound above upper bound panics (FileSlice::slice assert) instead of yielding an empty stream".into());
+                        } else {
+                            bad(ctx, "oracle", "C15:range-panics", format!("range stream failed: {e} (model {model})"));
+                        }
+                    }
+                    Ok(real) => {
+                        let is_prefix = real.len() <= want.len() && real.iter().zip(want.iter()).all(|(a, b)| a == b);
+                        let enough = match lim {
+                            None => real.len() == want.len(),
+                            Some(l) => real.len() as u64 >= l.min(want.len() as u64),
+                        };
+                        if lim.is_some() && real.len() > want.len().min(lim.unwrap() as usize) {
+                            ctx.report.count("branch:limit-returned-more-than-limit");
+                        }
+                        let real_d = digest(&real.iter().map(|e| (e.0, e.1.clone(), e.2 .0)).collect::<Vec<_>>());
+                        if !is_prefix || !enough {
+                            bad(ctx, "oracle", if parts[0] == "pfx" { "C15:prefix-stream-wrong" } else { "C15:range-stream-wrong" },
+                                format!("stream returned {} entries (digest {real_d}); sorted map has {} (digest {want_d}); prefix-of-expected={is_prefix} enough-for-limit={enough}", real.len(), want.len()));
+                        } else if real_d != model {
+                            bad(ctx, "model", "C15:range-stream-model", format!("real digest {real_d}, block model {model}"));
+                        }
+                    }
+                }
+            }
+            "aut" => {
+                let aspec = match AutSpec::parse(parts[1]) {
+                    Some(a) => a,
+                    None => continue,
+                };
+                let lo = Bnd::parse(parts[2]);
+                let hi = Bnd::parse(parts[3]);
+                let res: Option<(Result<Vec<(u64, Vec<u8>, V2)>, String>, Vec<bool>)> = c15_with_aut!(&aspec, a, {
+                    let acc: Vec<bool> = sorted.iter().map(|e| accepts(&a, e.0)).collect();
+                    Some((real_stream(dict, codec, Some(a), &lo, &hi, None), acc))
+                }, None);
+                let (real, acc) = match res {
+                    Some(x) => x,
+                    None => {
+                        ctx.report.count("aut:regex-rejected");
+                        continue;
+                    }
+                };
+                ctx.report.count(&format!("aut:{}", match &aspec { AutSpec::Prefix(_) => "prefix", AutSpec::Lev { .. } => "levenshtein", AutSpec::Regex(_) => "regex" }));
+                // language check of Levenshtein automata against the edit distance
+                if let AutSpec::Lev { d, transpose, prefix: false, q } = &aspec {
+                    for (i, e) in sorted.iter().enumerate().take(200) {
+                        if let Ok(s) = std::str::from_utf8(e.0) {
+                            let want = edit_distance(q, s, *transpose) <= *d as usize;
+                            if want != acc[i] {
+                                bad(ctx, "oracle", "C15:levenshtein-language", format!("Levenshtein automaton ({q:?}, d={d}, transpositions={transpose}) accepts {s:?} = {}, edit distance says {want}", acc[i]));
+                                break;
+                            }
+                        }
+                    }
+                }
+                let want: Vec<(u64, Vec<u8>, V2)> = sorted.iter().enumerate().filter(|(i, e)| acc[*i] && lo.lo_ok(e.0) && hi.hi_ok(e.0)).map(|(i, e)| (i as u64, e.0.clone(), *e.1)).collect();
+                if !want.is_empty() && want.len() < keys.len() {
+                    ctx.report.count("aut:nontrivial-language");
+                }
+                let want_d = digest(&want.iter().map(|e| (e.0, e.1.clone(), e.2 .0)).collect::<Vec<_>>());
+                if !spec.is_empty() && spec != "skip" && want_d != spec {
+                    bad(ctx, "model", "C15:spec-vs-btreemap", format!("Lean spec digest {spec} != filter-accepts digest {want_d}"));
+                    continue;
+                }
+                match real {
+                    Err(e) => bad(ctx, "oracle", "C15:search-panics", format!("automaton stream failed: {e}")),
+                    Ok(real) => {
+                        let kv_ok = real.len() == want.len() && real.iter().zip(want.iter()).all(|(a, b)| a.1 == b.1 && a.2 == b.2);
+                        let real_d = digest(&real.iter().map(|e| (e.0, e.1.clone(), e.2 .0)).collect::<Vec<_>>());
+                        if !kv_ok {
+                            bad(ctx, "oracle", "C15:search-stream-wrong", format!("automaton stream returned {} entries, filter-accepts gives {}", real.len(), want.len()));
+                        } else if real_d != want_d {
+                            // keys and values right, ordinals wrong
+                            // signature of the known defect: entries of pruned blocks are not counted, so
+                            // reported ordinals are strictly increasing and never above the true ones
+                            let undercount = real.windows(2).all(|w| w[0].0 < w[1].0) && real.iter().zip(want.iter()).all(|(a, b)| a.0 <= b.0);
+                            if (!model.is_empty() && real_d == model) || (spec == "skip" && undercount) {
+                                bad(ctx, "oracle", KEY_SEARCH_ORD, format!("Streamer::term_ord() of an automaton search is wrong once a block was pruned (keys/values right; first reported ord {:?}, true {:?})", real.first().map(|e| e.0), want.first().map(|e| e.0)));
+                            } else {
+                                bad(ctx, "oracle", "C15:search-stream-ordinals", format!("automaton stream ordinals differ from the sorted map and from the block model ({real_d} vs {want_d} vs {model})"));
+                            }
+                        } else if !model.is_empty() && spec != "skip" && real_d != model {
+                            bad(ctx, "model", "C15:search-stream-model", format!("real digest {real_d}, block model {model}"));
+                        }
+                    }
+                }
+            }
+            _ => {}
+        }
+    }
+}
+
+pub fn fnv_keys(keys: &[Vec<u8>]) -> u64 {
+    let mut h = 0xcbf29ce484222325u64;
+    for k in keys {
+        h = fnv_nat(h, k.len() as u64);
+        for b in k {
+            h = fnv_byte(h, *b);
+        }
+    }
+    h
+}
+
+pub fn model_layout(ctx: &mut Ctx, bl: usize, keys: &[Vec<u8>]) -> Vec<(u64, u64, Vec<u8>)> {
+    let r = ctx.model.ask(&format!("C15 layout {} {}", bl, keys_field(keys)));
+    if r.is_empty() || r == "bad-op" {
+        return vec![];
+    }
+    r.split(';').filter_map(|b| {
+        let p: Vec<&str> = b.split(':').collect();
+        Some((p.first()?.parse().ok()?, p.get(1)?.parse().ok()?, unhex(p.get(2)?)?))
+    }).collect()
+}
+
+fn one_dictionary(ctx: &mut Ctx, rng: &mut Rng, n_ops: usize) {
+    let (profile, keys) = gen_keys(rng, ctx.thorough());
+    let block_len = if keys.len() > 1000 && rng.chance(1, 2) { None } else { gen_block_len(rng) };
+    let vk = *rng.pick(&["void", "u64", "range"]);
+    let vals = gen_vals(rng, vk, keys.len());
+    let layout = model_layout(ctx, block_len.unwrap_or(4000), &keys);
+    let seps: Vec<Vec<u8>> = layout.iter().map(|b| b.2.clone()).collect();
+    ctx.report.count(&format!("profile:{profile}"));
+    ctx.report.count(&format!("values:{vk}"));
+    ctx.report.count(&format!("blocks:{}", match layout.len() { 0 => "0", 1 => "1", 2..=9 => "2-9", 10..=127 => "10-127", 128..=129 => "128-129", _ => "130+" }));
+    ctx.report.count(&format!("block_len:{}", match block_len { None => "default".to_string(), Some(0) => "0".into(), Some(1) => "1".into(), Some(x) if x < 16 => "2-15".into(), Some(x) if x < 200 => "16-199".into(), Some(_) => "200+".into() }));
+    let ops = gen_ops(rng, &keys, &seps, n_ops);
+    let case = DictCase { vk: vk.to_string(), block_len, keys, vals, ops, profile };
+    if ctx.report.samples.len() < 2 && case.keys.len() >= 3 && case.keys.len() < 12 {
+        ctx.report.sample(json!({"dictionary": case.json(""), "model_layout(firstOrd,len,sep)": layout.iter().map(|b| format!("{}:{}:{}", b.0, b.1, hex(&b.2))).collect::<Vec<_>>() }));
+    }
+    run_case(ctx, &case);
+    other::cross_decode(ctx, &case);
+}
+
+pub fn run_case(ctx: &mut Ctx, case: &DictCase) {
+    match case.vk.as_str() {
+        "void" => check_dict(ctx, &void_codec(), case),
+        "u64" => check_dict(ctx, &u64_codec(), case),
+        _ => check_dict(ctx, &range_codec(), case),
+    }
+}
 
 pub fn run(ctx: &mut Ctx) {
-    ctx.report.notes.push("C15: harness not built yet".into());
+    ctx.report.rule = "cases = (dictionary, operation) pairs, writer insertion sequences, merges, cross-decoded files; \
+        distinct = distinct (value type, block length, key set, operation); non-trivial = dictionary with ≥ 2 keys \
+        (insertion sequences: ≥ 2 keys; merges: ≥ 2 inputs)".into();
+    ctx.report.correspondence_obligations = vec![
+        "get / term_ord / term_ord_or_next / ord_to_term / term_info_from_ord = Lean spec = Lean block model".into(),
+        "range / prefix streams (all bound kinds, limits): real = prefix of sorted-map range with ≥ min(limit) entries; real = block model (ordinals, keys, values digest)".into(),
+        "automaton streams (prefix, Levenshtein 0..2 ± transpositions, regex): real = filter accepts; real = block model with block pruning; Levenshtein language = edit distance".into(),
+        "block routing get_block_with_key = model locateKey (separators incl. probes between last key and separator)".into(),
+        "writer acceptance / rejection index = model writer (insert_key assert + find_shorter assert)".into(),
+        "cross-decoding: Lean decodes real sstable files (void/u64/range, uncompressed blocks); real Reader decodes Lean-encoded blocks; block bytes equal".into(),
+        "sstable merge and columnar merge = Lean mergeSpec = Lean k-way merge incl. ordinal tables".into(),
+        "tantivy::termdict (fst backend) and columnar dictionary obey the same ordered-map spec".into(),
+    ];
+    if let Some(case) = ctx.replay.clone() {
+        other::replay(ctx, &case);
+        return;
+    }
+    let mut rng = ctx.rng.fork();
+    other::corpus(ctx);
+    let dicts = ctx.budget(700, 12000);
+    for _ in 0..dicts {
+        one_dictionary(ctx, &mut rng, 40);
+    }
+    let seqs = ctx.budget(1000, 20000);
+    for _ in 0..seqs {
+        other::insertion_order(ctx, &mut rng);
+    }
+    let merges = ctx.budget(300, 6000);
+    for _ in 0..merges {
+        other::merges(ctx, &mut rng);
+    }
+    let fsts = ctx.budget(150, 3000);
+    for _ in 0..fsts {
+        other::fst_termdict(ctx, &mut rng);
+    }
+    let cols = ctx.budget(80, 1500);
+    for _ in 0..cols {
+        other::columnar(ctx, &mut rng);
+    }
 }
